@@ -82,7 +82,7 @@ Print Assumptions C15_small_trees.
 
 (* non-vacuity: a tree with three levels of precedence meeting every hypothesis of C15_main *)
 Example C15_nonvacuous :
-  let t := TBin BOr (TBin BLt (TBin BPlus (TNum 1) (TBin BMul (TNum 2) (TNum 2))) (TNum 2))
-                    (TBin BAnd (TNot (TBool false)) (TBin BEq (TBin BMod (TNum 2) (TNeg (TNum 1))) (TNum 0))) in
+  let t := TBin BOr (TBin BLt (TBin BPlus (TNum 1) (TBin BMul (TNum 2) (TNeg (TNum 2)))) (TNum 2))
+                    (TBin BAnd (TNot (TBool false)) (TBin BEq (TBin BMod (TNum 2) (TNum 3)) (TNum 0))) in
   known_K1 t = false /\ known_K2 t = false /\ known_K3 t = false /\ known_K4 t = false /\ all_small t = true.
 Proof. vm_compute. auto. Qed.
